@@ -6,6 +6,7 @@ CONSTANTS
   Modes = {"Sign"}
   Moves = {"replay", "hold", "drop"}
   Damages = {}
+  Injects = {}
   Budget = 1
   MaxChunks = 0
   Sweeps <- NoSweep
